@@ -12,6 +12,7 @@ import (
 	"os"
 	"os/exec"
 	"path/filepath"
+	"runtime/pprof"
 	"sort"
 	"strings"
 	"sync/atomic"
@@ -77,12 +78,11 @@ func harnessFiles(prop string, native bool) map[string]string {
 		rt = "rt_native.go.txt"
 	}
 	m[filepath.Join(repoDir, "zz_verif_rt.go")] = filepath.Join(hd, rt)
-	m[filepath.Join(repoDir, "zz_verif_common.go")] = filepath.Join(hd, "common.go.txt")
 	ents, _ := os.ReadDir(hd)
 	lp := strings.ToLower(prop)
 	for _, e := range ents {
 		n := e.Name()
-		if strings.HasPrefix(n, lp) && strings.HasSuffix(n, ".go.txt") {
+		if (strings.HasPrefix(n, lp) || strings.HasPrefix(n, "common")) && strings.HasSuffix(n, ".go.txt") {
 			m[filepath.Join(repoDir, "zz_verif_"+strings.TrimSuffix(n, ".txt"))] = filepath.Join(hd, n)
 		}
 	}
@@ -132,7 +132,7 @@ func load(prop string) (*loaded, error) {
 			if strings.Contains(e.Msg, "missing function body") || strings.Contains(e.Msg, "func vNondet") {
 				continue
 			}
-			errs = append(errs, e.Error())
+			errs = append(errs, fmt.Sprintf("%s: %s", e.Pos, e.Msg))
 		}
 	})
 	if len(errs) > 0 {
@@ -242,7 +242,13 @@ func check(prop string, args []string) int {
 	workers := fs.Int("workers", 16, "parallel path workers")
 	maxPaths := fs.Int64("max-paths", 0, "path budget per harness (0 = tier default)")
 	noNative := fs.Bool("no-native", false, "skip native concordance/replay (debugging only; violations are then not reported)")
+	cpuprof := fs.String("cpuprofile", "", "write CPU profile")
 	fs.Parse(args)
+	if *cpuprof != "" {
+		f, _ := os.Create(*cpuprof)
+		pprof.StartCPUProfile(f)
+		defer pprof.StopCPUProfile()
+	}
 	t0 := time.Now()
 	tierN := 0
 	if *tier == "thorough" {
